@@ -183,3 +183,168 @@ def stores_hook_entry(node_or_nodes):
                             isinstance(t.value.slice, ast.Constant) and t.value.slice.value == 'hooks':
                         return True
     return False
+
+
+# ---- reloadconfig: what the name sets contain (C07 R7, C12 R10) ------------------------------
+
+def _name_valued(e, target):
+    """`T.name` / `T['name']` for the comprehension variable T"""
+    if isinstance(e, ast.Attribute) and e.attr == 'name' and isinstance(e.value, ast.Name) and \
+            e.value.id == target:
+        return True
+    if isinstance(e, ast.Subscript) and isinstance(e.value, ast.Name) and e.value.id == target and \
+            astq.const_value(e.slice, None) == 'name':
+        return True
+    return False
+
+
+def set_has(e, name, running, in_file, env=None):
+    """Does the set expression `e` (fully expanded) contain `name`, for an object that is
+    running now (`running`) and (not) described by the new file (`in_file`)?  True / False /
+    None = cannot say.  Understands | & -, set()/frozenset()/list()/sorted(), literals of
+    constants, .keys(), dict(...) and comprehensions over self.sockets / the watchers (running)
+    or new_cfg (file) with `in` / `not in` filters."""
+    env = env or {}
+    if isinstance(e, ast.Name):
+        return env.get(e.id)
+    if isinstance(e, ast.BinOp) and isinstance(e.op, (ast.BitOr, ast.BitAnd, ast.Sub)):
+        a = set_has(e.left, name, running, in_file, env)
+        b = set_has(e.right, name, running, in_file, env)
+        if isinstance(e.op, ast.BitOr):
+            if a is True or b is True:
+                return True
+            return None if a is None or b is None else False
+        if isinstance(e.op, ast.BitAnd):
+            if a is False or b is False:
+                return False
+            return None if a is None or b is None else True
+        if a is False or b is True:
+            return False
+        return None if a is None or b is None else True
+    if isinstance(e, (ast.Set, ast.List, ast.Tuple)):
+        vals = [astq.const_value(x, None) for x in e.elts]
+        if all(isinstance(v, str) for v in vals):
+            return name in vals
+        return None
+    if isinstance(e, ast.Call):
+        fn = dotted(e.func)
+        if fn in ('set', 'frozenset', 'list', 'sorted', 'tuple', 'dict') and not e.keywords:
+            if not e.args:
+                return False
+            return set_has(e.args[0], name, running, in_file, env)
+        if isinstance(e.func, ast.Attribute) and e.func.attr in ('keys', 'copy') and not e.args:
+            return set_has(e.func.value, name, running, in_file, env)
+        if isinstance(e.func, ast.Attribute) and e.func.attr in ('union', 'difference',
+                                                                 'intersection') and len(e.args) == 1:
+            op = {'union': ast.BitOr(), 'difference': ast.Sub(), 'intersection': ast.BitAnd()}
+            return set_has(ast.BinOp(e.func.value, op[e.func.attr], e.args[0]), name, running,
+                           in_file, env)
+        return None
+    if isinstance(e, (ast.ListComp, ast.SetComp, ast.GeneratorExp, ast.DictComp)) and \
+            len(e.generators) == 1 and isinstance(e.generators[0].target, ast.Name):
+        g = e.generators[0]
+        t = g.target.id
+        elt = e.key if isinstance(e, ast.DictComp) else e.elt
+        if isinstance(elt, ast.Tuple) and elt.elts:
+            elt = elt.elts[0]
+        if not _name_valued(elt, t):
+            return None
+        src = astq.norm_text(g.iter)
+        if 'new_cfg' in src or 'get_config(' in src:
+            base = in_file
+        elif 'self.sockets' in src or 'iter_watchers' in src or 'self.watchers' in src:
+            base = running
+        else:
+            return None
+        if base is False:
+            return False
+        for cond in g.ifs:
+            neg = False
+            c = cond
+            if isinstance(c, ast.UnaryOp) and isinstance(c.op, ast.Not):
+                neg, c = True, c.operand
+            if not (isinstance(c, ast.Compare) and len(c.ops) == 1 and
+                    isinstance(c.ops[0], (ast.In, ast.NotIn))):
+                return None
+            inside = set_has(c.comparators[0], name, running, in_file, env)
+            if inside is None:
+                return None
+            if _name_valued(c.left, t):
+                member = inside
+            elif isinstance(c.left, ast.Name) and c.left.id == t:
+                member = False      # the OBJECT is never an element of a set of names
+            else:
+                return None
+            truth = member if isinstance(c.ops[0], ast.In) else not member
+            if neg:
+                truth = not truth
+            if not truth:
+                return False
+        return True
+    return None
+
+
+def reload_spares_ignored(run, ctx, rid, what):
+    """what = 'sockets' | 'watchers'.  In Arbiter.reload_from_config the set of names whose
+    sockets are closed (watchers are stopped and deleted) never contains a name of the ignore
+    set - objects created through the API (circushttpd, circusd-stats), which no configuration
+    file describes - decided by evaluating the set algebra for such a name: running, not in
+    the file."""
+    from sa.dataflow import reaching_defs
+    f = ctx.fn('circus.arbiter:Arbiter.reload_from_config')
+    cfg = ctx.cfg(f)
+    rd = reaching_defs(ctx, f)
+    # the loop that disposes of the objects
+    loops = []
+    for h in cfg.nodes:
+        if h.kind != 'iter':
+            continue
+        body = nodes_within_loop(cfg, h)
+        if what == 'sockets':
+            hit = any(astq.call_last(c) == 'close' for b in body for c in b.calls()) and \
+                any(astq.call_last(c) == 'get_socket' or 'self.sockets' in astq.norm_text(b.ast)
+                    for b in body for c in b.calls())
+        else:
+            hit = any(astq.call_last(c) == '_stop' for b in body for c in b.calls()) and \
+                any(isinstance(b.ast, ast.Delete) or
+                    any(astq.call_last(c) == 'remove' for c in b.calls()) for b in body)
+        if hit:
+            loops.append(h)
+    if not run.need(rid, loops, 'the loop of reload_from_config that disposes of %s' % what, f):
+        return
+    # the objects the arbiter creates itself (no file describes them): constructor calls with
+    # a literal name in Arbiter.__init__
+    init = ctx.fn('circus.arbiter:Arbiter.__init__')
+    ignored = set()
+    cls = 'CircusSocket' if what == 'sockets' else 'Watcher'
+    for c in ast.walk(init.node):
+        if isinstance(c, ast.Call) and astq.call_last(c) == cls:
+            nm = astq.const_value(c.args[0], None) if c.args else \
+                astq.const_value(astq.kwarg(c, 'name'), None)
+            if nm is None:
+                nm = astq.const_value(astq.kwarg(c, 'name'), None)
+            if isinstance(nm, str):
+                ignored.add(nm)
+    run.count(rid, len(ignored), 1, '%s created by Arbiter.__init__ under a literal name' % what)
+    decided = 0
+    for h in loops:
+        for alt in rd.expand(h, h.ast.iter, depth=8, stop=('new_cfg',)):
+            for nm in sorted(ignored):
+                got = set_has(alt.expr, nm, True, False)
+                if got is None:
+                    continue
+                decided += 1
+                run.check(rid, got is False, "%r is never among the %s reloadconfig disposes of"
+                          % (nm, what), f, h.ast.iter,
+                          "reload_from_config %s %r although no configuration file describes it "
+                          "(it was created through the API): the set %s contains it - evaluated "
+                          "for a name that is running and absent from the file"
+                          % ('closes the socket' if what == 'sockets' else 'stops and deletes the '
+                             'watcher', nm, astq.norm_text(h.ast.iter)),
+                          construct='IGNORED-%s-DISPOSED' % what.upper())
+    run.count(rid, decided, 1, 'set evaluations for ignored %s' % what)
+
+
+def nodes_within_loop(cfg, h):
+    ids = cfg.branch_nodes(h, 'true')
+    return [n for n in cfg.nodes if n.id in ids]
